@@ -5,6 +5,7 @@ import MotoModel.Model.Basic
 import MotoModel.Model.Tape
 import MotoModel.Spec.BasicRef
 import MotoModel.Proofs.BasicCompose
+import MotoModel.Proofs.BasicWords
 namespace Moto.C13
 open Moto Moto.Basic Moto.Spec
 
@@ -154,5 +155,91 @@ theorem delimited_keywords (kws : List (Str × Nat)) (h : ∀ p ∈ kws, (∃ e 
   simp only [Function.comp]
   rw [← hep]
   exact keyword_then_separator e he p.2 hsp
+
+/-! ### lines made of keywords, inert words and string literals -/
+
+/-- a piece of a line, each followed by a special character: a keyword; a word made of characters
+    that occur in no keyword (numbers, `J`, `Z`, `#`, `%`, `&`, `!`, `@`, `_` …); a string literal -/
+inductive Piece where
+  | kw (k : Str) (s : Nat)
+  | word (w : Str) (s : Nat)
+  | lit (l : Str) (s : Nat)
+
+def Piece.text : Piece → Str
+  | .kw k s => k ++ [s]
+  | .word w s => w ++ [s]
+  | .lit l s => [34] ++ l ++ [34] ++ [s]
+
+/-- what the reference stores for the piece: the token of the keyword, the word in upper case, the
+    literal verbatim -/
+def Piece.code : Piece → Bytes
+  | .kw k s => BasicRef.keywordBytes k ++ [s]
+  | .word w s => upper w ++ [s]
+  | .lit l s => [34] ++ l ++ [34] ++ [s]
+
+def Piece.ok : Piece → Prop
+  | .kw k s => (∃ e ∈ Gen.Tokens.tokens, e.1 = k) ∧ s ∈ Gen.Tokens.specialChars
+  | .word w s => (∀ c ∈ w, InertChar c) ∧ s ∈ Gen.Tokens.specialChars
+  | .lit l s => 34 ∉ l ∧ s ∈ Gen.Tokens.specialChars
+
+theorem special_facts (s : Nat) (hs : s ∈ Gen.Tokens.specialChars) : isSpecial s = true ∧ s ≠ 34 := by
+  constructor
+  · unfold isSpecial; simpa using hs
+  · intro e; rw [e] at hs; revert hs; decide
+
+theorem piece_segment (p : Piece) (h : p.ok) : Segment p.text := by
+  cases p with
+  | kw k s =>
+    obtain ⟨⟨e, he, hek⟩, hs⟩ := h
+    obtain ⟨h1, h2⟩ := special_facts s hs
+    exact ⟨k, s, rfl, h1, h2, no_quote_stays_outside k (hek ▸ keyword_no_quote e he) _⟩
+  | word w s =>
+    obtain ⟨hw, hs⟩ := h
+    obtain ⟨h1, h2⟩ := special_facts s hs
+    exact ⟨w, s, rfl, h1, h2, no_quote_stays_outside w (fun hm => (hw 34 hm).1 rfl) _⟩
+  | lit l s =>
+    obtain ⟨hl, hs⟩ := h
+    obtain ⟨h1, h2⟩ := special_facts s hs
+    exact ⟨[34] ++ l ++ [34], s, rfl, h1, h2, literal_closed l hl⟩
+
+theorem piece_code (p : Piece) (h : p.ok) : encodeBody p.text = p.code := by
+  cases p with
+  | kw k s =>
+    obtain ⟨⟨e, he, hek⟩, hs⟩ := h
+    subst hek
+    exact keyword_then_separator e he s hs
+  | word w s => exact inert_word w h.1 s h.2
+  | lit l s => exact literal_then_separator l h.1 s h.2
+
+/-- **C13 (simple lines)**: every line made of keywords, words of characters that occur in no
+    keyword (numbers in particular) and string literals, each followed by a special character, is
+    stored as: the token of each keyword, each word in upper case, each literal verbatim, the
+    special characters in between -/
+theorem simple_line (ps : List Piece) (h : ∀ p ∈ ps, p.ok) :
+    encodeBody (ps.flatMap Piece.text) = ps.flatMap Piece.code := by
+  have := pieces_encode_independently (ps.map Piece.text) [] (by
+    intro seg hseg
+    obtain ⟨p, hp, rfl⟩ := List.mem_map.mp hseg
+    exact piece_segment p (h p hp))
+  simp only [List.append_nil, List.map_map] at this
+  have hnil : encodeBody [] = [] := by decide
+  rw [List.flatMap_def, this, hnil, List.append_nil, List.flatMap_def]
+  congr 1
+  apply List.map_congr_left
+  intro p hp
+  exact piece_code p (h p hp)
+
+/-- non-vacuity: `NEXT 100:PRINT "a:b" ` is such a line (without its line number) -/
+example : (∀ p ∈ [Piece.kw (Tape.str "NEXT") 32, Piece.word (Tape.str "100") 58, Piece.kw (Tape.str "PRINT") 32, Piece.lit (Tape.str "a:b") 32], p.ok) := by
+  intro p hp
+  simp only [List.mem_cons, List.mem_nil_iff, or_false] at hp
+  rcases hp with rfl | rfl | rfl | rfl
+  · exact ⟨isToken_mem' _ (by decide +kernel), by decide⟩
+  · refine ⟨?_, by decide⟩
+    intro c hc
+    have : c = 49 ∨ c = 48 := by revert hc; simp [Tape.str]
+    rcases this with rfl | rfl <;> exact ⟨by decide, by decide, by decide +kernel⟩
+  · exact ⟨isToken_mem' _ (by decide +kernel), by decide⟩
+  · exact ⟨by decide, by decide⟩
 
 end Moto.C13
